@@ -1136,11 +1136,13 @@ Qed.
 
 (* for every dimension up to 5 and every argument NumPy accepts (single axes or lists, negative
    spellings included) moveaxis builds NumPy's axis order, and that order is a permutation *)
-Lemma moveaxis_upto5 n sa da : (n <= 5)%nat -> np_moveaxis_ok n sa da = true ->
+Lemma moveaxis_of_check n sa da : np_moveaxis_ok n sa da = true ->
+  (NoDup (map (norm_ax (Z.of_nat n)) (axes_of sa)) -> NoDup (map (norm_ax (Z.of_nat n)) (axes_of da)) ->
+   moveaxis_check_one n (map (norm_ax (Z.of_nat n)) (axes_of sa)) (map (norm_ax (Z.of_nat n)) (axes_of da)) = true) ->
   moveaxis_to_transpose (Z.of_nat n) sa da = Some (np_moveaxis_order n sa da)
   /\ is_permb n (np_moveaxis_order n sa da) = true.
 Proof.
-  intros Hn Hok. unfold np_moveaxis_ok in Hok. cbv zeta in Hok.
+  intros Hok Hchk. unfold np_moveaxis_ok in Hok. cbv zeta in Hok.
   rewrite !andb_true_iff in Hok. destruct Hok as [[[[R1 R2] HL] N1] N2].
   apply Nat.eqb_eq in HL. apply nodupb_NoDup in N1, N2.
   set (N := Z.of_nat n) in *. set (src := map (norm_ax N) (axes_of sa)) in *. set (dst := map (norm_ax N) (axes_of da)) in *.
@@ -1152,19 +1154,32 @@ Proof.
   { unfold np_moveaxis_order. cbv zeta. cbn [axes_of]. fold N. fold src dst.
     rewrite (norm_ax_id N src), (norm_ax_id N dst); [reflexivity | |]; intros x Hx; [apply Rd in Hx | apply Rs in Hx]; lia. }
   assert (Hl : length src = length dst) by (unfold src, dst; now rewrite !map_length).
-  pose proof (moveaxis_upto5_nonneg n src dst Hn N1 N2 Hl Rs Rd) as C. unfold moveaxis_check_one in C. fold N in C.
+  pose proof (Hchk N1 N2) as C. unfold moveaxis_check_one in C. fold N in C.
   rewrite E1, E2. destruct (moveaxis_to_transpose N (AxList src) (AxList dst)) as [o|]; [|discriminate].
   apply andb_prop in C as [C1 C2]. apply list_eqb_eq in C1. subst o. split; [reflexivity | assumption].
 Qed.
 
-(* hence, up to dimension 5, moveaxis is NumPy's transpose by that order at every index *)
-Lemma moveaxis_np_upto5 sa da s i : (length s <= 5)%nat -> np_moveaxis_ok (length s) sa da = true ->
+Lemma moveaxis_upto5 n sa da : (n <= 5)%nat -> np_moveaxis_ok n sa da = true ->
+  moveaxis_to_transpose (Z.of_nat n) sa da = Some (np_moveaxis_order n sa da)
+  /\ is_permb n (np_moveaxis_order n sa da) = true.
+Proof.
+  intros Hn Hok. apply moveaxis_of_check; [assumption|]. intros N1 N2.
+  unfold np_moveaxis_ok in Hok. cbv zeta in Hok. rewrite !andb_true_iff in Hok. destruct Hok as [[[[R1 R2] HL] _] _].
+  apply Nat.eqb_eq in HL.
+  apply moveaxis_upto5_nonneg; try assumption; [now rewrite !map_length | apply norm_range; assumption | apply norm_range; assumption].
+Qed.
+
+(* whenever moveaxis builds NumPy's order and that order is a permutation, it is NumPy's
+   transpose by that order at every index *)
+Lemma moveaxis_np_of_order sa da s i :
+  moveaxis_to_transpose (Z.of_nat (length s)) sa da = Some (np_moveaxis_order (length s) sa da) ->
+  is_permb (length s) (np_moveaxis_order (length s) sa da) = true ->
   inb i (np_transpose_shape s (Some (np_moveaxis_order (length s) sa da))) ->
   moveaxis_accept sa da s = Some (np_transpose_shape s (Some (np_moveaxis_order (length s) sa da)))
   /\ moveaxis_index sa da s i = np_transpose_index (Some (np_moveaxis_order (length s) sa da)) i
   /\ inb (moveaxis_index sa da s i) s.
 Proof.
-  intros Hn Hok Hi. destruct (moveaxis_upto5 _ sa da Hn Hok) as [E P].
+  intros E P Hi.
   set (o := np_moveaxis_order (length s) sa da) in *.
   assert (Hp : perm (length s) o) by now apply is_permb_perm.
   assert (Hlo : length o = length s) by apply Hp.
@@ -1180,4 +1195,105 @@ Proof.
   split.
   - apply (transpose_index_np (Some o) i). now rewrite Hli.
   - exact (transpose_inb (Some o) s i Hok' Hi).
+Qed.
+
+(* hence, up to dimension 5, moveaxis is NumPy's transpose by that order at every index *)
+Lemma moveaxis_np_upto5 sa da s i : (length s <= 5)%nat -> np_moveaxis_ok (length s) sa da = true ->
+  inb i (np_transpose_shape s (Some (np_moveaxis_order (length s) sa da))) ->
+  moveaxis_accept sa da s = Some (np_transpose_shape s (Some (np_moveaxis_order (length s) sa da)))
+  /\ moveaxis_index sa da s i = np_transpose_index (Some (np_moveaxis_order (length s) sa da)) i
+  /\ inb (moveaxis_index sa da s i) s.
+Proof.
+  intros Hn Hok Hi. destruct (moveaxis_upto5 _ sa da Hn Hok) as [E P]. now apply moveaxis_np_of_order.
+Qed.
+
+(* ===================================================================== moveaxis: one source axis, one destination
+   axis, EVERY dimension (the form moveaxis(a, s, d)): no sweep, a direct proof.  The library
+   builds  rest ++ [0]  (rest = the other axes in order) and shifts s in at position d; NumPy's
+   order walks the result positions and places s at d, the other axes in order elsewhere. *)
+
+Definition keep_not (s : Z) := fun i : Z => negb (existsb (Z.eqb i) [s]).
+
+Lemma keep_not_spec s i : keep_not s i = negb (i =? s).
+Proof. unfold keep_not. simpl. now rewrite orb_false_r. Qed.
+
+Lemma rest_length s n : 0 <= s ->
+  length (filter (keep_not s) (zs n)) = if s <? Z.of_nat n then (n - 1)%nat else n.
+Proof.
+  intros Hs. induction n as [|n IH]; [simpl; destruct (s <? 0); reflexivity|].
+  rewrite zs_S, filter_app, app_length, IH. cbn [filter]. rewrite keep_not_spec.
+  destruct (Z.ltb_spec s (Z.of_nat n)); destruct (Z.ltb_spec s (Z.of_nat (S n))); destruct (Z.eqb_spec (Z.of_nat n) s);
+    cbn [negb length]; lia.
+Qed.
+
+Lemma walk_after s d : forall f p rest, d < p -> length rest = f ->
+  np_moveaxis_walk f p [s] [d] rest = rest.
+Proof.
+  induction f as [|f IH]; intros p rest Hp Hl.
+  - destruct rest; [reflexivity | discriminate].
+  - cbn [np_moveaxis_walk find_opt]. destruct (Z.eqb_spec d p); [lia|].
+    destruct rest as [|r rest']; [discriminate|]. f_equal. apply IH; [lia|]. simpl in Hl. lia.
+Qed.
+
+Lemma walk_single s d : forall f p rest, p <= d -> (Z.to_nat (d - p) < f)%nat -> length rest = (f - 1)%nat ->
+  np_moveaxis_walk f p [s] [d] rest = firstn (Z.to_nat (d - p)) rest ++ s :: skipn (Z.to_nat (d - p)) rest.
+Proof.
+  induction f as [|f IH]; intros p rest Hp Hf Hl; [lia|].
+  cbn [np_moveaxis_walk find_opt]. destruct (Z.eqb_spec d p) as [E|E].
+  - subst p. rewrite Z.sub_diag. cbn [Z.to_nat firstn skipn app nth]. f_equal.
+    apply walk_after; [lia|]. lia.
+  - assert (Z.to_nat (d - p) = S (Z.to_nat (d - (p + 1)))) as -> by lia.
+    destruct rest as [|r rest']; [simpl in Hl; lia|]. cbn [firstn skipn app]. f_equal.
+    apply IH; [lia | lia | simpl in Hl; lia].
+Qed.
+
+Lemma list_eqb_refl a : list_eqb a a = true.
+Proof. induction a as [|x a IH]; simpl; [reflexivity|]. now rewrite Z.eqb_refl. Qed.
+
+Lemma moveaxis_single_check n s d : 0 <= s < Z.of_nat n -> 0 <= d < Z.of_nat n ->
+  moveaxis_check_one n [s] [d] = true.
+Proof.
+  intros Hs Hd. unfold moveaxis_check_one, moveaxis_to_transpose, np_moveaxis_order. cbv zeta. cbn [axes_of].
+  rewrite (normalize_axes_nonneg (Z.of_nat n) [s]), (normalize_axes_nonneg (Z.of_nat n) [d]);
+    try (intros x [<-|[]]; lia).
+  cbn [length Nat.eqb negb]. unfold zrange. rewrite Nat2Z.id.
+  rewrite (norm_ax_id (Z.of_nat n) [s]), (norm_ax_id (Z.of_nat n) [d]); try (intros x [<-|[]]; lia).
+  change (fun i : Z => negb (existsb (Z.eqb i) [s])) with (keep_not s).
+  set (rest := filter (keep_not s) (zs n)).
+  assert (Hl : length rest = (n - 1)%nat).
+  { unfold rest. rewrite rest_length by lia. destruct (Z.ltb_spec s (Z.of_nat n)); lia. }
+  change (argsort [d]) with [0%nat]. cbn [fold_left nth]. rewrite Hl.
+  replace (n - (n - 1))%nat with 1%nat by lia. cbn [repeat].
+  rewrite (walk_single s d n 0 rest) by lia. rewrite Z.sub_0_r.
+  set (D := Z.to_nat d). assert (HD : (D <= n - 1)%nat) by lia.
+  assert (E : insert_shift D s (rest ++ [0]) = firstn D rest ++ s :: skipn D rest).
+  { unfold insert_shift. rewrite firstn_app, skipn_app, app_length, Hl. cbn [length].
+    replace (D - (n - 1))%nat with 0%nat by lia. cbn [firstn skipn]. rewrite app_nil_r.
+    f_equal. f_equal. rewrite firstn_app, skipn_length, Hl.
+    replace (n - 1 + 1 - D - 1 - (n - 1 - D))%nat with 0%nat by lia. cbn [firstn]. rewrite app_nil_r.
+    apply firstn_all2. rewrite skipn_length. lia. }
+  rewrite E, list_eqb_refl. cbn [andb].
+  apply is_permb_perm.
+  assert (P : Permutation (s :: rest) (firstn D rest ++ s :: skipn D rest)).
+  { rewrite <- (firstn_skipn D rest) at 1. apply Permutation_middle. }
+  assert (Hin : forall x, In x (s :: rest) -> 0 <= x < Z.of_nat n).
+  { intros x [<-|Hx]; [lia|]. apply filter_In in Hx as [Hx _]. now apply in_zs. }
+  assert (Hnd : NoDup (s :: rest)).
+  { constructor; [|apply NoDup_filter, NoDup_zs]. intros Hx. apply filter_In in Hx as [_ Hx].
+    rewrite keep_not_spec, Z.eqb_refl in Hx. discriminate. }
+  split; [|split].
+  - rewrite <- (Permutation_length P). simpl. lia.
+  - intros k Hk. apply Hin. apply (Permutation_in _ (Permutation_sym P)). apply nth_In.
+    rewrite <- (Permutation_length P). simpl. lia.
+  - exact (Permutation_NoDup P Hnd).
+Qed.
+
+Lemma moveaxis_single n a b : np_moveaxis_ok n (AxOne a) (AxOne b) = true ->
+  moveaxis_to_transpose (Z.of_nat n) (AxOne a) (AxOne b) = Some (np_moveaxis_order n (AxOne a) (AxOne b))
+  /\ is_permb n (np_moveaxis_order n (AxOne a) (AxOne b)) = true.
+Proof.
+  intros Hok. apply moveaxis_of_check; [assumption|]. intros _ _. cbn [axes_of map].
+  unfold np_moveaxis_ok in Hok. cbv zeta in Hok. rewrite !andb_true_iff in Hok. destruct Hok as [[[[R1 R2] _] _] _].
+  cbn [axes_of] in R1, R2.
+  apply moveaxis_single_check; [apply (norm_range _ _ R1) | apply (norm_range _ _ R2)]; now left.
 Qed.
